@@ -83,6 +83,31 @@ class Record(Dom):
         self.build = build
 
 
+class Namespace(Dom):
+    """An attribute bag (threading.local(), a module-level record): fields name -> Dom; absent names are absent."""
+
+    def __init__(self, **fields):
+        self.fields = fields
+
+
+class ObjSet(Dom):
+    """A mutable set of object identities (empty=True: the empty set)."""
+
+    def __init__(self, empty=False):
+        self.empty = empty
+
+
+class ObjRef(Dom):
+    """An object known only by its identity."""
+
+
+class DictOf(Dom):
+    """A dict with the given constant keys."""
+
+    def __init__(self, **fields):
+        self.fields = fields
+
+
 class Seq(Dom):
     """Symbolic-length sequence of elem (lo <= len <= hi)."""
 
@@ -169,7 +194,7 @@ class Contract:
                  returns=None, modular=(), name=None, closure_env=None,
                  decreases=None, invariants=None, notes='', bound_args=None,
                  klass='PROVED', frame=None, when=None, free_vars=(),
-                 native_call=None, apply_decorators=False, heap=False):
+                 native_call=None, apply_decorators=False, heap=False, effects=None, record=False, ghost=()):
         self.target = target
         self.prop = prop
         self.params = params
@@ -191,6 +216,9 @@ class Contract:
         self.native_call = native_call
         self.apply_decorators = apply_decorators
         self.heap = heap
+        self.effects = effects      # modular use: engine-level havoc of what the callee may change
+        self.record = record        # record mode: ensures see the live objects, old(x) the entry snapshot
+        self.ghost = tuple(ghost)   # ghost counters (symbolic ints) of this contract
 
 
 class Lemma:
